@@ -22,6 +22,8 @@ WORLDS = {
     "C05": "worlds.c05",
     "C14": "worlds.c14",
     "C16": "worlds.c16",
+    "C01": "worlds.c01",
+    "C12": "worlds.c12",
 }
 
 # per-property tier sizes: (runs, wall budget seconds, per-run timeout)
